@@ -1,6 +1,8 @@
 package main
 
 import (
+	"fmt"
+	"os"
 	"go/ast"
 	"go/types"
 )
@@ -47,6 +49,9 @@ func (x *Exec) freshSliceV(e ast.Expr, depth int, visiting map[*types.Var]bool) 
 			return true // s = append(s, ...) keeps a fresh slice fresh
 		}
 		rhs, ok := x.localAssigns[v]
+		if os.Getenv("GOVC_DEBUG") != "" {
+			fmt.Fprintf(os.Stderr, "freshSlice ident %s: assigns=%d ok=%v nmaps=%d\n", v.Name(), len(rhs), ok, len(x.localAssigns))
+		}
 		if !ok || len(rhs) == 0 {
 			return false
 		}
@@ -83,7 +88,16 @@ func (x *Exec) sliceStoreCheck(st *State, fr *Frame, l *ast.IndexExpr) {
 
 // collectLocalAssigns records, per local variable, the expressions assigned to it.
 func (x *Exec) collectLocalAssigns(body ast.Node) {
-	x.localAssigns = map[*types.Var][]ast.Expr{}
+	if x.localAssigns == nil {
+		x.localAssigns = map[*types.Var][]ast.Expr{}
+	}
+	if x.assignsSeen == nil {
+		x.assignsSeen = map[ast.Node]bool{}
+	}
+	if x.assignsSeen[body] {
+		return
+	}
+	x.assignsSeen[body] = true
 	ast.Inspect(body, func(n ast.Node) bool {
 		switch n := n.(type) {
 		case *ast.AssignStmt:
